@@ -153,6 +153,16 @@ func (vc *VC) identityOfIn(st *State, v Val) *Term {
 	return vc.identityOf(v)
 }
 
+// pureArgTerms: what an uninterpreted pure function depends on for one argument. A byte slice or string is read by
+// the function, so the argument is its CONTENT key (row contents, offset, length) - not the slice header, which
+// would make two calls on the same header but different memory contents equal.
+func (vc *VC) pureArgTerms(st *State, a Val) []*Term {
+	if a.T != nil && ((kindOf(a.T) == KSlice && kindOf(elemTypeOf(a.T)) == KInt) || kindOf(a.T) == KString) {
+		return []*Term{vc.identityOfIn(st, a)}
+	}
+	return a.C
+}
+
 func (vc *VC) identityOf(v Val) *Term {
 	if v.T == nil {
 		if len(v.C) > 0 && v.C[0].Sort == SInt {
@@ -815,7 +825,7 @@ func (vc *VC) applyContract(x ast.Node, con *Contract, full string, sig *types.S
 		var as []*Term
 		allInt := true
 		for _, a := range args {
-			as = append(as, a.C...)
+			as = append(as, vc.pureArgTerms(st, a)...)
 		}
 		for _, a := range as {
 			if a.Sort != SInt {
